@@ -69,7 +69,7 @@ impl Property for C18 {
          oracle = the generated instance itself: polynomials by id, equality kinds, id sets, value domains of the variables that occur with non-zero coefficient; non-trivial = >=1 integer or binary variable and >=1 variable without a finite lower bound; distinct = sha256(instance)"
     }
     fn required_labels(&self) -> Vec<String> {
-        ["bound-absent", "binary-no-bound", "neg-bound", "constant-only-constraint", "maximize", "nonlinear-objective", "nonlinear-constraint", "noncontiguous-ids", "removed-constraint", "half-infinite", "unused-variable", "integer-variable"].iter().map(|s| s.to_string()).collect()
+        ["bound-absent", "binary-no-bound", "neg-bound", "constant-only-constraint", "maximize", "nonlinear-objective", "nonlinear-constraint", "noncontiguous-ids", "removed-constraint", "half-infinite", "unused-variable", "integer-variable", "unsorted-terms"].iter().map(|s| s.to_string()).collect()
     }
     fn cases(&self, tier: Tier) -> usize {
         match tier {
@@ -95,8 +95,27 @@ impl Property for C18 {
         cfg.allow_fixed = false;
         cfg.func = FuncCfg { regime, allow_unset: false, unnormalised: false, allow_zero_coeff: false, max_degree: 1, max_terms: 5, ..FuncCfg::default() };
         cfg.metadata = false;
+        let shuffle_seed: Vec<u8> = (0..8).map(|_| t.byte()).collect();
         let gi = gen_instance(t, &cfg, ctx);
         let mut inst = gi.inst.clone();
+        // each variable occurs once per function, but the order of the terms in the message is arbitrary
+        // (the MPS reader itself returns terms in hash-map order)
+        {
+            use v1::function::Function as F;
+            let mut tp = Tape::new(&shuffle_seed);
+            let mut unsorted = false;
+            for f in inst.objective.iter_mut().chain(inst.constraints.iter_mut().filter_map(|c| c.function.as_mut())) {
+                if let Some(F::Linear(l)) = &mut f.function {
+                    tp.shuffle(&mut l.terms);
+                    if l.terms.windows(2).any(|w| w[0].id > w[1].id) {
+                        unsorted = true;
+                    }
+                }
+            }
+            if unsorted {
+                ctx.label("unsorted-terms");
+            }
+        }
         // ids of constraints fit into u64 text; ensure sense is valid
         if inst.sense == SENSE_MAX {
             ctx.label("maximize");
